@@ -10,6 +10,9 @@ analytic triangular banks vanish on negative frequencies; all values finite.
                   know (default, floor(rate/2), rate/2, rate/2 + 0.5, rate/2 + 1; even and odd
                   rates) x the quick widths and widths large enough to resolve 0.5 Hz at the
                   Nyquist frequency
+  agree_threshold banks built after EFFECTIVE_SUPPORT_THRESHOLD was lowered (1e-4) / raised (2e-3): the bound
+                  "twice the threshold" is the threshold IN FORCE
+  threshold_history  the constant is changed between two uses of one bank object
   history         call histories on ONE bank object (engine in c05.py): every sequence of 2 / 3
                   calls over {get_frequency_response(half False / True), get_truncated_response}
 
